@@ -12,7 +12,9 @@ os.makedirs(dst, exist_ok=True)
 shutil.copy(f"/tmp/confirm/{name}.rebased.diff", f"{dst}/patch.diff")
 shutil.copy(f"{inbox}/demo{k}.py", f"{dst}/demo.py")
 round2 = k not in ("", "2") and not (src_dir == "C17" and k == "3")
-nfile = f"{inbox}/notes2.md" if round2 else f"{inbox}/notes.md"
+kk = int(k or 1)
+round3 = kk >= 5 and not (src_dir == "C17" and kk == 5)
+nfile = f"{inbox}/notes3.md" if round3 else (f"{inbox}/notes2.md" if round2 else f"{inbox}/notes.md")
 if os.path.exists(nfile):
     shutil.copy(nfile, f"{dst}/notes.md")
 meta = dict(id=name, breaks_property=prop, needs_to_manifest=needs,
